@@ -1884,12 +1884,22 @@ func (t *translator) block(stmts []ast.Stmt, ev *env, lc *loopCtx, top bool, k f
 				if _, dup := e2.index[name]; dup {
 					unsup(n, "variable %s shadows another one", name)
 				}
-				val := t.zero(n, typ)
+				val := ""
 				if len(vs.Values) > 0 {
 					if t.mayPanic(vs.Values[i], e2) {
-						unsup(vs.Values[i], "initialiser that can panic")
+						// var x T = e with an e that can panic: the value first (one variable, one declaration)
+						if len(gd.Specs) != 1 || len(vs.Names) != 1 {
+							unsup(vs.Values[i], "initialiser that can panic")
+						}
+						return t.exprK(vs.Values[i], e2, typ, func(v string) string {
+							e3 := e2.clone()
+							e3.add(name, typ, 1)
+							return "(let " + name + " : " + t.coqType(n, typ) + " := " + v + " in\n" + cont(e3) + ")"
+						})
 					}
 					val = t.pure(vs.Values[i], e2, typ)
+				} else {
+					val = t.zero(n, typ)
 				}
 				out += "(let " + name + " : " + t.coqType(n, typ) + " := " + val + " in\n"
 				closeP += ")"
@@ -2933,14 +2943,10 @@ func (t *translator) counterLoop(x *ast.ForStmt, ev *env) (*fuelLoop, []*variabl
 	default:
 		unsup(x, "loop whose condition (%s) does not bound a counter stepping by %+d", cond.Op, step)
 	}
-	// the bound must not change while the loop runs
+	// stage 8: the bound may mention a variable the body assigns (tokens[i] = ... under i < len(tokens)): the condition
+	// is evaluated on the current values in every iteration, only the FUEL is taken from the bound at loop entry; if
+	// the bound grows while the loop runs the translation ends in OutOfFuel, which no bridge can prove away
 	carried := assigned(x.Body.List, ev)
-	boundVars := used([]ast.Node{bound})
-	for _, v := range carried {
-		if boundVars[v.name] {
-			unsup(x, "loop bound depends on %s, which the body assigns", v.name)
-		}
-	}
 	bodyAssign := map[string]bool{}
 	ast.Inspect(x.Body, func(n ast.Node) bool {
 		switch s := n.(type) {
@@ -3096,7 +3102,7 @@ func (t *translator) whileStmt(x *ast.ForStmt, rest []ast.Stmt, ev *env, k func(
 		break
 	}
 	cmp, ok := first.(*ast.BinaryExpr)
-	if !ok || cmp.Op != token.LSS {
+	if !ok || (cmp.Op != token.LSS && cmp.Op != token.LEQ) {
 		unsup(x, "loop without init/post whose condition does not start with `i < bound`")
 	}
 	ci, ok := cmp.X.(*ast.Ident)
@@ -3139,13 +3145,10 @@ func (t *translator) whileStmt(x *ast.ForStmt, rest []ast.Stmt, ev *env, k func(
 		unsup(x, "loop without init/post that assigns %s more than once or uses continue", ci.Name)
 	}
 	carried := assigned(x.Body.List, ev)
-	bv := used([]ast.Node{cmp.Y})
-	for _, v := range carried {
-		if bv[v.name] {
-			unsup(x, "loop bound depends on %s, which the body assigns", v.name)
-		}
-	}
 	fuel := "(Z.to_nat (" + t.pure(cmp.Y, ev, "int") + " - " + t.pure(ci, ev, "int") + "))"
+	if cmp.Op == token.LEQ {
+		fuel = "(Z.to_nat (" + t.pure(cmp.Y, ev, "int") + " - " + t.pure(ci, ev, "int") + " + 1))"
+	}
 	return t.fuelLoop(&fuelLoop{node: x, fuel: fuel, condE: x.Cond, body: x.Body.List}, carried, rest, ev, k)
 }
 
@@ -3599,7 +3602,9 @@ func main() {
 				renameShadows(fd)
 			}
 			saveConsts, saveStr, saveDir := t.consts, t.strConsts, t.dir
-			// stage 8: unexported helpers of the same package that the function calls are translated first
+			// stage 8: helpers of the same package are inlined where the syntax allows it ...
+			t.inlineHelpers(fd, fs)
+			// ... and the others are translated first
 			// (the call graph is followed from the area's roots; a recursive helper is outside the subset)
 			for _, h := range t.helperCallees(fd, fs) {
 				if started[h.name] {
